@@ -181,3 +181,75 @@ fn d12_windows_xp_dead() {
     let s = r.tcp_syn.unwrap();
     println!("D12 sig={} matched={:?} quality={:?}", s.sig.matching, s.os_matched.os.map(|o| format!("{} {:?}", o.name, o.kind)), s.os_matched.quality);
 }
+
+// ---- demonstrations added during the build phase (run against the pinned commit bb3278d) ----
+
+#[test]
+fn d13_http_flow_not_removed_when_server_completes() {
+    let c = [10, 0, 0, 1]; let s = [10, 0, 0, 2];
+    let mut a = huginn_net::HuginnNet::new(None, 10, Some(cfg(true, false, false))).unwrap();
+    let req = b"GET / HTTP/1.1\r\nHost: example.org\r\nUser-Agent: x\r\n\r\n";
+    let resp = b"HTTP/1.1 200 OK\r\nServer: nginx\r\nContent-Length: 0\r\n\r\n";
+    // connection 1
+    a.analyze_tcp(&seg(c, s, 40000, 80, 0x02, 1000, &[]));
+    let r1 = a.analyze_tcp(&seg(c, s, 40000, 80, 0x18, 1001, req));
+    let r2 = a.analyze_tcp(&seg(s, c, 80, 40000, 0x18, 5001, resp));
+    // connection 2 re-uses the same 4-tuple within the 60 s TTL
+    a.analyze_tcp(&seg(c, s, 40000, 80, 0x02, 9000, &[]));
+    let r3 = a.analyze_tcp(&seg(c, s, 40000, 80, 0x18, 9001, req));
+    println!("D13 conn1 request={} response={} ; conn2 (same 4-tuple) request reported={}", r1.http_request.is_some(), r2.http_response.is_some(), r3.http_request.is_some());
+}
+
+#[test]
+fn d14_ttl_bad_signature_dead() {
+    use huginn_net_db::tcp::Ttl;
+    println!("D14 Distance(54,10) vs Bad(64) = {:?}; Value(200) vs Bad(255) = {:?}; Bad(0) vs Bad(64) = {:?}",
+        Ttl::Distance(54, 10).distance_ttl(&Ttl::Bad(64)), Ttl::Value(200).distance_ttl(&Ttl::Bad(255)), Ttl::Bad(0).distance_ttl(&Ttl::Bad(64)));
+    use huginn_net_db::tcp::WindowSize;
+    println!("D14b Mss(8) vs Value(8192) = {:?}; Mtu(2) vs Value(3000) = {:?}; Mod(4096) vs Value(16384) = {:?}",
+        WindowSize::Mss(8).distance_window_size(&WindowSize::Value(8192), Some(1024)), WindowSize::Mtu(2).distance_window_size(&WindowSize::Value(3000), Some(1460)),
+        WindowSize::Mod(4096).distance_window_size(&WindowSize::Value(16384), Some(1460)));
+}
+
+#[test]
+fn d15_http_worker_counts_processing_error_as_drop() {
+    let (tx, _rx) = std::sync::mpsc::channel();
+    let pool = huginn_net_http::WorkerPool::new(1, 16, 1, 10, tx, None, 100, None).unwrap();
+    // Ethernet + IPv4 header claiming TCP, but only 8 bytes of TCP header: parse error in the worker
+    let mut p = vec![0u8; 12]; p.extend_from_slice(&[0x08, 0x00]);
+    p.extend_from_slice(&[0x45, 0, 0, 28, 0, 1, 0x40, 0, 64, 6, 0, 0, 10, 0, 0, 1, 10, 0, 0, 2]);
+    p.extend_from_slice(&[0x9c, 0x40, 0, 80, 0, 0, 0, 1]);
+    let r = pool.dispatch(p);
+    std::thread::sleep(std::time::Duration::from_millis(300));
+    let st = pool.stats();
+    println!("D15 dispatch={:?} total_dropped={} per-worker dropped={:?}", r, st.total_dropped, st.workers.iter().map(|w| w.dropped).collect::<Vec<_>>());
+}
+
+#[test]
+fn d17_eol_and_non_handshake_and_mtu() {
+    let mut a = huginn_net::HuginnNet::new(None, 10, Some(cfg(false, true, false))).unwrap();
+    // SYN with options mss, eol, 00 00 (padding)
+    let p = eth_ipv4_tcp([10, 0, 0, 1], [10, 0, 0, 2], 40000, 80, 0x02, &[2, 4, 5, 0xb4, 0, 0, 0, 0], &[]);
+    let r = a.analyze_tcp(&p);
+    println!("D17 syn with eol+padding: {:?} mtu={:?}", r.tcp_syn.as_ref().map(|s| s.sig.matching.to_string()), r.tcp_mtu.as_ref().map(|m| m.mtu));
+    // plain ACK data segment
+    let d = eth_ipv4_tcp([10, 0, 0, 1], [10, 0, 0, 2], 40000, 80, 0x18, &[], b"hello");
+    let r = a.analyze_tcp(&d);
+    println!("D17b ACK data segment reported as syn_ack: {}", r.tcp_syn_ack.is_some());
+    // malformed MSS option (len 1)
+    let m = eth_ipv4_tcp([10, 0, 0, 1], [10, 0, 0, 2], 40001, 80, 0x02, &[2, 1, 1, 1], &[]);
+    let r = a.analyze_tcp(&m);
+    println!("D17c malformed option: {:?}", r.tcp_syn.as_ref().map(|s| s.sig.matching.to_string()));
+}
+
+#[test]
+fn d18_http_gap_and_growth() {
+    let c = [10, 0, 0, 1]; let s = [10, 0, 0, 2];
+    let mut a = huginn_net::HuginnNet::new(None, 10, Some(cfg(true, false, false))).unwrap();
+    let req = b"GET /a HTTP/1.1\r\nHost: h\r\nX-Pad: 0123456789\r\nUser-Agent: x\r\n\r\n";
+    a.analyze_tcp(&seg(c, s, 40000, 80, 0x02, 1000, &[]));
+    // segments 1 and 3 only (segment 2 = bytes 20..40 missing)
+    let r1 = a.analyze_tcp(&seg(c, s, 40000, 80, 0x18, 1001, &req[..20]));
+    let r3 = a.analyze_tcp(&seg(c, s, 40000, 80, 0x18, 1041, &req[40..]));
+    println!("D18 gap: reported with a missing middle segment = {} uri={:?}", r1.http_request.is_some() || r3.http_request.is_some(), r3.http_request.as_ref().map(|q| q.sig.matching.to_string()));
+}
